@@ -2,6 +2,8 @@
 // fingerprint of everything it materialises, plus the per-object oracles that
 // several properties share (C01 invariant, C05 frozen-value model, C08 round
 // trip).
+#include <set>
+
 #include "jobs.h"
 #include "ops.h"
 #include "oracles.h"
@@ -66,7 +68,10 @@ std::string job_prog(const Args& a) {
   const size_t maxTri = (size_t)a.u("maxtri", 60000);
   const bool wantFp = a.i("fp", 1);
   JArr steps, viol, finals;
-  uint64_t nObjects = 0, nTris = 0;
+  uint64_t nObjects = 0, nTris = 0, nDerivedSuppressed = 0;
+  // Root-cause reporting: an object that violated C01/C08 taints everything
+  // derived from it; violations of tainted objects are counted, not reported.
+  std::set<uint64_t> tainted;
   std::map<std::string, int> opCount;
 
   SimOutcome out = run_simulated(s, [&]() {
@@ -105,7 +110,13 @@ std::string job_prog(const Args& a) {
       exec(e, op);
       opCount[op.name]++;
       JArr fps, ids, usedIds;
-      for (auto u : e.used) usedIds.i64((int64_t)u);
+      bool derivedFromTainted = false;
+      for (auto u : e.used) {
+        usedIds.i64((int64_t)u);
+        if (tainted.count(u)) derivedFromTainted = true;
+      }
+      if (derivedFromTainted)
+        for (auto& p : e.produced) tainted.insert(p.isX ? e.idX[p.idx] : e.idM[p.idx]);
       for (auto& p : e.produced) ids.i64((int64_t)(p.isX ? e.idX[p.idx] : e.idM[p.idx]));
       if (!lazy) {
         // materialise and observe everything this step produced
@@ -130,11 +141,23 @@ std::string job_prog(const Args& a) {
             nTris += g.triVerts.size() / 3;
             if (c01) {
               std::string cl = check_manifold_invariant(m, g);
-              if (!cl.empty()) addViol("C01", i, op.text(), cl);
+              if (!cl.empty()) {
+                if (derivedFromTainted)
+                  nDerivedSuppressed++;
+                else
+                  addViol("C01", i, op.text(), cl);
+                tainted.insert(e.idM[p.idx]);
+              }
             }
             if (c08 && m.Status() == Manifold::Error::NoError && m.NumTri() > 0) {
               std::string cl = c08_check(m, g, a);
-              if (!cl.empty()) addViol("C08", i, op.text(), cl);
+              if (!cl.empty()) {
+                if (derivedFromTainted)
+                  nDerivedSuppressed++;
+                else
+                  addViol("C08", i, op.text(), cl);
+                tainted.insert(e.idM[p.idx]);
+              }
             }
             if (c05) {
               birthM.resize(e.M.size());
@@ -200,7 +223,7 @@ std::string job_prog(const Args& a) {
   for (auto& kv : opCount) oc.i64(kv.first, kv.second);
   JObj j;
   j.raw("steps", steps.done()).raw("final", finals.done()).raw("viol", viol.done());
-  j.u64("objects", nObjects).u64("tris", nTris).raw("ops", oc.done());
+  j.u64("objects", nObjects).u64("tris", nTris).u64("derived_suppressed", nDerivedSuppressed).raw("ops", oc.done());
   j.raw("sim", outcome_json(out));
   return j.done();
 }
